@@ -26,6 +26,7 @@ type c04Case struct {
 	Storm  bool   `json:"storm"`
 	Reps   int    `json:"reps"`
 	DocRev bool   `json:"docrev,omitempty"` // the sequenceFlow elements appear in the document in the reverse of the gateway's list order
+	Retype int    `json:"retype,omitempty"` // index+1 into c04Retypes: the variable changes its kind between two gateways
 	Funnel bool   `json:"funnel,omitempty"` // the tokens are merged into ONE incoming flow of the gateway (fork -> merging exclusive gateway -> X)
 }
 
@@ -138,6 +139,14 @@ func c04Cases(tier string, seed uint64) []fw.Case {
 			}
 		}
 	}
+	// a variable that changes its kind between two gateways evaluated by the same token
+	for ri := range c04Retypes() {
+		for _, truth := range []int{0, 1} {
+			c := c04Case{K: 1, DefPos: 1, Truth: truth, Tokens: 1, Lang: "expr", Source: "var", Retype: ri + 1}
+			c.Name = fmt.Sprintf("retyped-%d-t%d", ri, truth)
+			cs = append(cs, fw.MkCase("retyped", &c))
+		}
+	}
 	// many tokens over ONE incoming flow (more than the gateway's mailbox holds)
 	for k := 1; k <= 2; k++ {
 		for def := -1; def <= k; def++ {
@@ -160,7 +169,118 @@ func c04Cases(tier string, seed uint64) []fw.Case {
 	return fw.Number(cs)
 }
 
+// c04Retype: the second gateway's condition text and the value (true / false case) the task in between stores
+type c04Retype struct {
+	Name, Cond string
+	True, False any
+}
+
+func c04Retypes() []c04Retype {
+	return []c04Retype{
+		{"int-to-string", `r == "go"`, "go", "stop"},
+		{"int-to-bool", `r == true`, true, false},
+		{"int-to-float", `r > 1.5`, 2.5, 0.5},
+		{"int-to-object", `r.a == 1`, map[string]any{"a": 1}, map[string]any{"a": 2}},
+		{"int-to-array", `len(r) == 2`, []int{1, 2}, []int{1}},
+		{"int-to-int", `r > 3`, 9, 1},
+		{"int-to-string-same-text", `r != 5`, "five", 5},
+	}
+}
+
+// c04RunRetyped: start -> T0 (stores r = 5) -> X1 [r > 3 -> T1 | default -> Tz]; T1 (stores r again, as another
+// kind) -> X2 [condition on the new kind -> TA | default -> TB]. The same token evaluates both gateways.
+func c04RunRetyped(c *c04Case, env *fw.Env, v *fw.V) {
+	rt := c04Retypes()[c.Retype-1]
+	g := gen.NewGraph("c04r")
+	s := g.Add(gen.Start, "start", "")
+	t0 := g.Add(gen.Task, "T0", "")
+	t0.Writes = []string{"r"}
+	x1 := g.Add(gen.Xor, "X1", "")
+	t1 := g.Add(gen.Task, "T1", "")
+	t1.Writes = []string{"r"}
+	tz := g.Add(gen.Task, "Tz", "")
+	x2 := g.Add(gen.Xor, "X2", "")
+	ta := g.Add(gen.Task, "TA", "")
+	tb := g.Add(gen.Task, "TB", "")
+	e := g.Add(gen.End, "end", "")
+	g.Connect(s, t0, nil)
+	g.Connect(t0, x1, nil)
+	first := `r > 3`
+	if rt.Name == "int-to-string-same-text" {
+		first = rt.Cond
+	}
+	g.Connect(x1, t1, &gen.Cond{Kind: "text", Text: first})
+	d := g.Connect(x1, tz, nil)
+	x1.Default = d.ID
+	g.Connect(t1, x2, nil)
+	g.Connect(x2, ta, &gen.Cond{Kind: "text", Text: rt.Cond})
+	d2 := g.Connect(x2, tb, nil)
+	x2.Default = d2.ID
+	for _, n := range []*gen.Node{tz, ta, tb} {
+		g.Connect(n, e, nil)
+	}
+	defs, _, err := step.Parse(g)
+	if err != nil {
+		v.Inconclusive("parse", "%v", err)
+		return
+	}
+	perturb.Off()
+	in, err := drive.New(env.Label, defs, drive.Opts{ExtraSubs: 1, Vars: map[string]any{"r": 0}})
+	if err != nil {
+		v.Violate("new-process-error", "error", "%v", err)
+		return
+	}
+	defer in.Cancel()
+	cls := "retyped-" + rt.Name
+	stepTo := func(what string, want string) bool {
+		q := in.Quiesce(step.Watchdog)
+		v.Add("qpoints", 1)
+		if !q.Quiescent {
+			v.Inconclusive("watchdog", "no quiescent point %s: %v", what, quiesce.Summary(q.Gs))
+			return false
+		}
+		got := in.PendingActs()
+		if len(got) != 1 || got[0] != want {
+			v.Violate("wrong-branch", cls, "%s: pending requests %v, expected [%s] (second condition %q); error traces: %d", what, got, want, rt.Cond, in.Count("Error", ""))
+			v.Log = in.Tail(30)
+			return false
+		}
+		return true
+	}
+	if err := in.Start(); err != nil {
+		v.Violate("start-error", "error", "%v", err)
+		return
+	}
+	if !stepTo("after start", "T0") {
+		return
+	}
+	init := any(7)
+	if rt.Name == "int-to-string-same-text" {
+		init = 7 // 7 != 5
+	}
+	in.Answer(in.Pending()[0], bpmn.DoWithResults(map[string]any{"r": init}))
+	if !stepTo("after T0 stored an integer", "T1") {
+		return
+	}
+	val, want := rt.False, "TB"
+	if c.Truth == 1 {
+		val, want = rt.True, "TA"
+	}
+	in.Answer(in.Pending()[0], bpmn.DoWithResults(map[string]any{"r": val}))
+	if !stepTo(fmt.Sprintf("after T1 stored %v (%T)", val, val), want) {
+		return
+	}
+	if n := in.Count("Error", "") + in.Count("ErrorNoFlow", ""); n != 0 {
+		v.Violate("spurious-error-trace", cls, "%d error traces although every condition can be evaluated", n)
+		v.Log = in.Tail(30)
+	}
+}
+
 func c04Run(c *c04Case, env *fw.Env, v *fw.V) {
+	if c.Retype > 0 {
+		c04RunRetyped(c, env, v)
+		return
+	}
 	g, branches := c04Graph(c)
 	defs, _, err := step.Parse(g)
 	if err != nil {
@@ -293,7 +413,7 @@ func init() {
 			v.Nontrivial = true
 			return v
 		},
-		Rule:       "exhaustive grid: k in 1..4 conditional flows x default absent / at each list position x all 2^k truth assignments x 1..3 tokens arriving together x {expr over variables, expr over data objects, XPath over variables} (1896 cells) with the closed-form oracle 'first true in list order, else default, else error trace + no flow', one flow trace per token; storm variants perturb the probe/report hand-shake of concurrent tokens; every cell is non-trivial (a condition or the default decides); distinct = descriptor hash",
+		Rule:       "exhaustive grid: k in 1..4 conditional flows x default absent / at each list position x all 2^k truth assignments x 1..3 tokens arriving together x {expr over variables, expr over data objects, XPath over variables} (1896 cells) with the closed-form oracle 'first true in list order, else default, else error trace + no flow', one flow trace per token; storm variants perturb the probe/report hand-shake of concurrent tokens; funnel shapes (4 / 8 tokens merged into one incoming flow); definitions with the sequence flows in reverse document order; two gateways in a row evaluated by one token with a variable that changes its kind in between (integer to string / boolean / float / object / array); every cell is non-trivial (a condition or the default decides); distinct = descriptor hash",
 		Exhaustive: func(string) bool { return true },
 		Assumptions: []string{"XPath conditions address variables as //<name> (the engine serialises the variable map with anyxml, whose root element depends on the number of variables)", "data-object conditions are exercised in expr only (the XPath engine exposes no usable data-object function name)"},
 	})
